@@ -613,6 +613,11 @@ let unop_idx = function
 | Not -> S (S O)
 | Pos -> S (S (S O))
 
+(** val all_unop : unop list **)
+
+let all_unop =
+  Neg :: (Inv :: (Not :: (Pos :: [])))
+
 (** val is_bitwise : binop -> bool **)
 
 let is_bitwise = function
@@ -872,7 +877,7 @@ let all_kind =
 
 let kinds = function
 | TObj -> all_kind
-| TPyInt -> KInt :: (KNone :: [])
+| TPyInt -> KInt :: (KBool :: (KNone :: []))
 | TPyFloat -> KFloat :: (KNone :: [])
 | TPyBool -> KBool :: (KNone :: [])
 | TPyStr -> KStr :: (KNone :: [])
@@ -1163,10 +1168,7 @@ let rec expr_ok t e mO = function
 | EBin (o, a, b) ->
   (&&) ((&&) (expr_ok t e mO a) (expr_ok t e mO b))
     (bin_entry_ok t o (ety t e mO a) (ety t e mO b))
-| EUn (o, a) ->
-  (match o with
-   | Not -> expr_ok t e mO a
-   | _ -> (&&) (expr_ok t e mO a) (un_entry_ok t o (ety t e mO a)))
+| EUn (o, a) -> (&&) (expr_ok t e mO a) (un_entry_ok t o (ety t e mO a))
 | ECond (_, a, b) ->
   (&&) ((&&) (expr_ok t e mO a) (expr_ok t e mO b))
     (cond_entry_ok t (ety t e mO a) (ety t e mO b))
@@ -1192,7 +1194,7 @@ let bad_un t =
   flat_map (fun o ->
     flat_map (fun t1 ->
       if un_entry_ok t o t1 then [] else ((unop_idx o), (ty_idx t1)) :: [])
-      all_ty) (Neg :: (Inv :: (Pos :: [])))
+      all_ty) all_unop
 
 (** val bad_cond : tables -> (nat * nat) list **)
 
